@@ -553,3 +553,157 @@ Proof.
   - unfold LogI. sf. auto.
   - unfold FailI. sf. pose proof (count_upd inl_pc _ _ _ pc' Hn) as C. pose proof (I_fail s I) as F. unfold FailI in F. lia.
 Qed.
+
+Lemma touch_alive s : alive s = true -> touch s = s.
+Proof. intros H. unfold touch. rewrite H. reflexivity. Qed.
+
+Lemma ready_sound_now s : Inv s -> alive s = true -> slot s <> Moved ->
+  ready_of true (w s) = true -> is_some (rd s) = true.
+Proof.
+  intros I Ha Hm Hr. simpl in Hr. destruct (w s) eqn:Hw; [discriminate|].
+  destruct (rd_ok s I Ha Hw Hm) as [R1 R2]. rewrite R1. destruct (val s); [reflexivity|congruence].
+Qed.
+
+Lemma ready_res s : ready_of true (w s) = true -> w s = WRes.
+Proof. simpl. destruct (w s); [discriminate|reflexivity]. Qed.
+
+Ltac eq_st := match goal with s : st |- _ => destruct s; reflexivity end.
+
+Ltac use_pc I Hpc :=
+  let pc0 := fresh "pc0" in let Hn := fresh "Hn" in let Hl := fresh "Hl" in let Hinl := fresh "Hinl" in
+  let Hok := fresh "Hok" in let Hor := fresh "Hor" in
+  destruct (pc_of_ok _ _ _ I Hpc ltac:(discriminate)) as [pc0 [Hn [Hl [Hinl [Hok Hor]]]]].
+
+Lemma not_moved_pc s h pc pc0 : Inv s -> nth_error (hs s) h = Some pc0 ->
+  (pc0 = pc \/ exists c k, pc0 = HSleep c k) -> pc <> HSpent -> pc <> HDead -> slot s <> Moved.
+Proof.
+  intros I Hn Hor H1 H2. eapply not_moved_h; [exact I|exact Hn| |].
+  - destruct Hor as [->|[c [k ->]]]; [exact H1|discriminate].
+  - destruct Hor as [->|[c [k ->]]]; [exact H2|discriminate].
+Qed.
+
+Lemma attach_failed_inv s h p pc0 s' :
+  Inv s -> alive s = true -> nth_error (hs s) h = Some pc0 -> live pc0 = true -> inl_pc pc0 = false ->
+  slot s <> Moved -> w s = WRes -> attach_failed h p s = Some s' -> Inv s'.
+Proof.
+  intros I Ha Hn Hl Hinl Hm Hw H. unfold attach_failed in H. destruct p as [k|k].
+  - destruct k; try discriminate; inversion H; subst; clear H.
+    all: match goal with |- Inv (set_nfail _ (set_h ?h (HInl ?k) ?s)) =>
+           replace (set_nfail (S (nfail s)) (set_h h (HInl k) s))
+             with (local_upd h (HInl k) (gots s) (iruns s) (S (nfail s)) (readys s) s) by eq_st end.
+    all: eapply inv_local; eauto; try apply (I_log s I); try (intros; congruence);
+         try (simpl; split; [assumption|discriminate]); try (rewrite Hinl; simpl; lia).
+  - inversion H; subst; clear H.
+    replace (set_h h (after_wait k) s) with (local_upd h (after_wait k) (gots s) (iruns s) (nfail s) (readys s) s) by eq_st.
+    eapply inv_local; eauto; try apply (I_log s I); try (intros; congruence).
+    + destruct k; reflexivity.
+    + destruct k; simpl; auto.
+    + rewrite Hinl. destruct k; simpl; lia.
+Qed.
+
+Lemma attach_loaded_inv s h p pc0 s' :
+  Inv s -> alive s = true -> nth_error (hs s) h = Some pc0 -> live pc0 = true -> inl_pc pc0 = false ->
+  slot s <> Moved -> attach_loaded h p s = Some s' -> Inv s'.
+Proof.
+  intros I Ha Hn Hl Hinl Hm H. unfold attach_loaded in H.
+  assert (Hp : p <> PCb KEvent) by (intros ->; discriminate).
+  assert (H' : match w s with WRes => attach_failed h p s | WStack l => Some (set_h h (HAtt p l) s) end = Some s').
+  { destruct p as [[]|]; try exact H. congruence. }
+  clear H. destruct (w s) eqn:Hw.
+  - inversion H'; subst; clear H'.
+    replace (set_h h (HAtt p l) s) with (local_upd h (HAtt p l) (gots s) (iruns s) (nfail s) (readys s) s) by eq_st.
+    eapply inv_local; eauto; try apply (I_log s I); try (intros; congruence).
+    rewrite Hinl. simpl. lia.
+  - eapply attach_failed_inv; eauto.
+Qed.
+
+Lemma inv_step_h_local s e s' :
+  Inv s -> alive s = true ->
+  match e with
+  | EReady _ _ | EAwaitL _ _ | ETouchL _ _ _ | ERcH _ _ | EAttL _ _ _ | ELdA _ _ | ECbInl _ | EConnL _ _ => True
+  | _ => False
+  end ->
+  step_h true s e = Some s' -> Inv s'.
+Proof.
+  intros I Ha He H. destruct e; try contradiction; simpl in H.
+  - (* EReady *)
+    destruct (pc_of s h) as [[]|] eqn:Hpc; try discriminate. destruct (obs_ok v (w s)); [|discriminate].
+    inversion H; subst; clear H. use_pc I Hpc.
+    assert (Hm : slot s <> Moved) by (eapply not_moved_pc; eauto; discriminate).
+    replace (set_h h H0 (note_ready true s))
+      with (local_upd h H0 (gots s) (iruns s) (nfail s) (readys s ++ [(ready_of true (w s), is_some (rd s))]) s) by eq_st.
+    eapply inv_local; eauto; try apply (I_log s I); try (intros; congruence).
+    + apply Forall_app_one; [apply (I_log s I)|]. simpl fst; simpl snd. apply ready_sound_now; auto.
+    + rewrite Hinl. simpl. lia.
+  - (* EAwaitL *)
+    destruct (pc_of s h) as [[]|] eqn:Hpc; try discriminate. destruct (obs_ok v (w s)); [|discriminate].
+    inversion H; subst; clear H. use_pc I Hpc.
+    assert (Hm : slot s <> Moved) by (eapply not_moved_pc; eauto; discriminate).
+    replace (set_h h (if ready_of true (w s) then HRead else H0) (note_ready true s))
+      with (local_upd h (if ready_of true (w s) then HRead else H0) (gots s) (iruns s) (nfail s)
+                      (readys s ++ [(ready_of true (w s), is_some (rd s))]) s) by eq_st.
+    eapply inv_local; eauto; try apply (I_log s I); try (intros; congruence).
+    + destruct (ready_of true (w s)); reflexivity.
+    + destruct (ready_of true (w s)) eqn:Er; simpl; auto. apply ready_res; exact Er.
+    + apply Forall_app_one; [apply (I_log s I)|]. simpl fst; simpl snd. apply ready_sound_now; auto.
+    + rewrite Hinl. destruct (ready_of true (w s)); simpl; lia.
+  - (* ETouchL *)
+    destruct (pc_of s h) as [[]|] eqn:Hpc; try discriminate.
+    destruct (obs_ok v (w s) && ready_of true (w s)) eqn:Eb; [|discriminate].
+    apply andb_true_iff in Eb. destruct Eb as [_ Er]. apply ready_res in Er.
+    inversion H; subst; clear H. use_pc I Hpc.
+    assert (Hm : slot s <> Moved) by (eapply not_moved_pc; eauto; discriminate).
+    replace (set_h h (if mv then HRc else HRead) s)
+      with (local_upd h (if mv then HRc else HRead) (gots s) (iruns s) (nfail s) (readys s) s) by eq_st.
+    eapply inv_local; eauto; try apply (I_log s I); try (intros; congruence).
+    + destruct mv; reflexivity.
+    + destruct mv; simpl; auto.
+    + rewrite Hinl. destruct mv; simpl; lia.
+  - (* ERcH *)
+    destruct (pc_of s h) as [[]|] eqn:Hpc; try discriminate.
+    destruct (Nat.eqb n (refs s)) eqn:En; [|discriminate]. apply Nat.eqb_eq in En.
+    inversion H; subst; clear H. use_pc I Hpc.
+    assert (Hm : slot s <> Moved) by (eapply not_moved_pc; eauto; discriminate).
+    replace (set_h h (HOut (Nat.eqb (refs s) get_move_when_ref_eq)) s)
+      with (local_upd h (HOut (Nat.eqb (refs s) get_move_when_ref_eq)) (gots s) (iruns s) (nfail s) (readys s) s) by eq_st.
+    eapply inv_local; eauto; try apply (I_log s I); try (intros; congruence).
+    + simpl in Hok. destruct (Nat.eqb (refs s) get_move_when_ref_eq) eqn:E1; simpl; auto.
+      apply Nat.eqb_eq in E1. split; auto.
+    + rewrite Hinl. simpl. lia.
+  - (* EAttL *)
+    destruct (pc_of s h) as [[]|] eqn:Hpc; try discriminate. destruct (obs_ok v (w s)); [|discriminate].
+    use_pc I Hpc.
+    assert (Hm : slot s <> Moved) by (eapply not_moved_pc; eauto; discriminate).
+    eapply attach_loaded_inv; eauto.
+  - (* ELdA *)
+    destruct (pc_of s h) as [[]|] eqn:Hpc; try discriminate. destruct (obs_ok v (w s)); [|discriminate].
+    use_pc I Hpc.
+    assert (Hm : slot s <> Moved) by (eapply not_moved_pc; eauto; discriminate).
+    eapply attach_loaded_inv; eauto.
+  - (* ECbInl *)
+    assert (Hx : exists pc, pc_of s h = Some pc /\ (pc = HInl KInl \/ pc = HConnR) /\
+                 s' = set_h h H0 (set_iruns (iruns s ++ [rd s]) s)).
+    { destruct (pc_of s h) as [[]|] eqn:Hpc; try discriminate.
+      - destruct k; try discriminate. inversion H; subst. eexists; split; [reflexivity|split; [left; reflexivity|reflexivity]].
+      - inversion H; subst. eexists; split; [reflexivity|split; [right; reflexivity|reflexivity]]. }
+    clear H. destruct Hx as [pc [Hpc [Hk ->]]].
+    assert (Hd : pc <> HDead) by (destruct Hk; subst; discriminate).
+    destruct (pc_of_ok _ _ _ I Hpc Hd) as [pc0 [Hn [Hl [Hinl [Hok Hor]]]]].
+    assert (Hm : slot s <> Moved) by (eapply not_moved_pc; eauto; destruct Hk; subst; discriminate).
+    assert (Hw : w s = WRes) by (destruct Hk; subst; simpl in Hok; tauto).
+    destruct (rd_ok s I Ha Hw Hm) as [R1 R2].
+    replace (set_h h H0 (set_iruns (iruns s ++ [rd s]) s))
+      with (local_upd h H0 (gots s) (iruns s ++ [rd s]) (nfail s) (readys s) s) by eq_st.
+    eapply inv_local; eauto; try apply (I_log s I); try (intros; congruence).
+    + apply Forall_app_one; [apply (I_log s I)|]. split; congruence.
+    + rewrite Hinl. rewrite app_length. destruct Hk; subst; simpl; lia.
+  - (* EConnL *)
+    destruct (pc_of s h) as [[]|] eqn:Hpc; try discriminate. destruct k; try discriminate.
+    destruct (obs_ok v (w s) && ready_of true (w s)) eqn:Eb; [|discriminate].
+    inversion H; subst; clear H. use_pc I Hpc.
+    assert (Hm : slot s <> Moved) by (eapply not_moved_pc; eauto; discriminate).
+    replace (set_h h HConnR s) with (local_upd h HConnR (gots s) (iruns s) (nfail s) (readys s) s) by eq_st.
+    eapply inv_local; eauto; try apply (I_log s I); try (intros; congruence).
+    + simpl in Hok. simpl. tauto.
+    + rewrite Hinl. simpl. lia.
+Qed.
